@@ -21,6 +21,7 @@ META = {
         "Not decided: 'exactly 1+min(r,3), and no fewer if the timeout allows'; FIFO as observed; back-off as observed time."
     ),
 }
+META["explanation"] += ' C08.R3 also: net effect of one wait on the exponent over its 0..3 domain (unanswered -> min(3, m+1); answered -> never higher).'
 
 F = "ramses_tx.protocol_fsm"
 
